@@ -348,6 +348,14 @@ func mkBVBin(op string, a, b *Term) *Term {
 			return mkBV(v, w)
 		}
 	}
+	// distribute over ite-trees with constant leaves (e.g. the result of
+	// bits.Len): keeps division/multiplication by constants out of the solver
+	if b.op == "bvconst" && constLeafIte(a, 80) {
+		return mapIteLeaves(a, func(l *Term) *Term { return mkBVBin(op, l, b) })
+	}
+	if a.op == "bvconst" && constLeafIte(b, 80) {
+		return mapIteLeaves(b, func(l *Term) *Term { return mkBVBin(op, a, l) })
+	}
 	// identities
 	switch op {
 	case "bvadd", "bvor", "bvxor":
@@ -817,4 +825,34 @@ func (t *Term) write(sb *strings.Builder, depth int) {
 		a.write(sb, depth+1)
 	}
 	sb.WriteByte(')')
+}
+
+// constLeafIte: t is an ite-tree (at most budget ite nodes along the else
+// spine) whose leaves are all bit-vector constants.
+func constLeafIte(t *Term, budget int) bool {
+	if t.op != "ite" {
+		return false
+	}
+	for n := 0; n < budget; n++ {
+		if t.op == "bvconst" {
+			return true
+		}
+		if t.op != "ite" {
+			return false
+		}
+		if t.args[1].op != "bvconst" {
+			if !constLeafIte(t.args[1], budget/2) {
+				return false
+			}
+		}
+		t = t.args[2]
+	}
+	return false
+}
+
+func mapIteLeaves(t *Term, f func(*Term) *Term) *Term {
+	if t.op == "ite" {
+		return mkIte(t.args[0], mapIteLeaves(t.args[1], f), mapIteLeaves(t.args[2], f))
+	}
+	return f(t)
 }
